@@ -421,8 +421,13 @@ func cliChecks(r *mc.Run, image []byte) {
 	listing := func(dir string) []string {
 		var out []string
 		filepath.Walk(dir, func(p string, info os.FileInfo, err error) error {
-			if err == nil && !info.IsDir() {
+			// everything under the (empty) output root counts, directories included: for the on-disk
+			// back end the directory tree is the workspace
+			if err == nil && p != dir {
 				rel, _ := filepath.Rel(dir, p)
+				if info.IsDir() {
+					rel += "/"
+				}
 				out = append(out, rel)
 			}
 			return nil
@@ -469,7 +474,7 @@ func cliChecks(r *mc.Run, image []byte) {
 						r.Violation("cli/fails/"+strings.Join(flags, "+"), id, fmt.Sprintf("endorse %v failed: %v", flags, runErr), nil)
 					}
 					if len(files) > 0 {
-						r.Violation("cli/file-written/"+strings.Join(flags, "+"), id, fmt.Sprintf("endorse %v wrote files %v", flags, files), nil)
+						r.Violation("cli/file-written/"+strings.Join(flags, "+"), id, fmt.Sprintf("endorse %v left %v under the output root", flags, files), nil)
 					}
 					r.Validated()
 					r.Nontrivial(id)
